@@ -143,7 +143,26 @@ def _walk(obj, memo, out, skip_gen, path, sort_dicts=False):
             raise UnknownObject("no dict state for %r at %r" % (type(obj), path))
         _walk(state, memo, out, skip_gen, path, sort_dicts)
         return
-    raise UnknownObject("cannot canonicalise %r at %r" % (type(obj), path))
+    if isinstance(obj, (range, slice, complex, np.dtype)):
+        out.append("atom:" + repr(obj))
+        return
+    # generic structural fallback: the object's own reduction (class, constructor arguments, state, items)
+    try:
+        red = obj.__reduce_ex__(4)
+    except Exception as e:                                    # noqa: BLE001
+        raise UnknownObject("cannot canonicalise %r at %r (%s)" % (type(obj), path, e))
+    if isinstance(red, str):
+        out.append("global:" + red)
+        return
+    out.append("reduced:" + (type(obj).__module__ or "") + "." + type(obj).__qualname__)
+    _walk(red[0], memo, out, skip_gen, path + ("__reduce__",), sort_dicts)
+    _walk(tuple(red[1]) if red[1] is not None else (), memo, out, skip_gen, path + ("args",), sort_dicts)
+    if len(red) > 2 and red[2] is not None:
+        _walk(red[2], memo, out, skip_gen, path + ("state",), sort_dicts)
+    if len(red) > 3 and red[3] is not None:
+        _walk(list(red[3]), memo, out, skip_gen, path + ("listitems",), sort_dicts)
+    if len(red) > 4 and red[4] is not None:
+        _walk(list(red[4]), memo, out, skip_gen, path + ("dictitems",), sort_dicts)
 
 
 def tokens(obj, skip_generators=False, sort_dicts=False):
